@@ -61,6 +61,10 @@ def main(ctx: Ctx):
     ctx.cov['rule'] = ('seeded (defaults list|tuple of length 0-3, default kwargs, 1-8 enqueues with 0-4 positional and 0-2 keyword extras) on thread and process kinds (remote: fewer in quick, all in thorough); '
                        'op sequences interleaving enqueue / next_result / close / wait / call; argument-mutating target; enqueue after close and after death; '
                        'non-trivial = enqueues of different shapes in one sequence; distinct by (defaults, enqueues)')
+    import translate
+    errors, _ = translate.regenerate_consumer()      # T-next: Gen/Consumer.lean from PersistentWorker.next_result
+    for e in errors:
+        ctx.broke('translation', 'harness/translate.py (T-next)', e)
     ctx.lean()
     T = ctx.thorough
     rng = ctx.rng
@@ -158,6 +162,29 @@ def main(ctx: Ctx):
                     except Exception as e:
                         if type(e).__name__ != 'WorkerClosedError':
                             ctx.fail(f'enqueue-after-death:{kind}', f'{kind}: enqueue after death raised {type(e).__name__}', desc)
+                finally:
+                    try:
+                        if w.is_alive():
+                            w.terminate(0.5)
+                    except Exception:
+                        pass
+            # reads issued after close() / after a wait() that timed out, while the worker is still busy with accepted inputs
+            for how in ('close', 'wait-timeout'):
+                w = mk(kind, sess, TG.t_slow_sq)
+                try:
+                    for x in (1, 2, 3):
+                        w.enqueue(x)
+                    if how == 'close':
+                        w.close()
+                    else:
+                        watchdog(lambda: w.wait(0.05), 10)
+                    st, first = watchdog(lambda: list(w.results_iter()), 15)
+                    watchdog(lambda: w.wait(10), 20)
+                    st2, late = watchdog(lambda: list(w.results_iter()), 10)
+                    ctx.case(('read-after-' + how, kind), True, sample={'case': f'results_iter() right after {how} while the worker is busy', 'kind': kind, 'first': first, 'later': late})
+                    if st != 'ok' or first != [1, 4, 9] or late != [] or w.result != 3:
+                        ctx.fail(f'read-after-{how}:{kind}', f'{kind}: 3 slow inputs enqueued, then {how}: results_iter() gave {first if st == "ok" else st}, after wait() a second results_iter() gave {late}, result={w.result} '
+                                 f'(expected [1, 4, 9], then nothing, 3)', {'kind': kind, 'scenario': 'read-after-' + how})
                 finally:
                     try:
                         if w.is_alive():
